@@ -79,7 +79,8 @@ def load():
 
 
 def outcome(mode, occ):
-    return round(0.23 * occ + 0.17 * mode - 0.35, 6)
+    # unique per (subsystem, occurrence) and bounded for the two-digit subsystem indices of sparse registers
+    return round(0.23 * occ + 0.17 * (mode % 5) + 0.011 * (mode // 5) - 0.35, 6)
 
 
 def gen_case(rng):
@@ -143,17 +144,28 @@ def gen_case(rng):
     backend = str(rng.choice(["gaussian", "gaussian", "gaussian", "bosonic", "fock"]))
     if backend == "fock" and any(c["op"] == "MeasureHeterodyne" for c in cmds):
         backend = "gaussian"  # the Fock backend has no heterodyne measurement
-    return {"n": n, "cmds": cmds, "free": free, "binding": binding_mode,
+    case = {"n": n, "cmds": cmds, "free": free, "binding": binding_mode,
             "pipeline": str(rng.choice(["run", "run", "optimize", "compile"])),
             "backend": backend}
+    if backend != "fock" and rng.random() < 0.25:
+        # same program on a sparse, unordered choice of subsystems of a larger register (measured parameters of
+        # subsystems with two-digit indices, q10.par vs q1.par)
+        N = int(rng.choice([n + 1, 11, 13, 24]))
+        emb = [int(x) for x in rng.choice(N, n, replace=False)]
+        if N >= 11 and max(emb) < 10:
+            emb[int(rng.integers(n))] = int(rng.integers(10, N))
+        case["N"], case["embed"] = N, emb
+    return case
 
 
 def build(env, case, symbolic):
     """Symbolic program or its numeric twin."""
     sf, ops = env["sf"], env["ops"]
-    prog = sf.Program(case["n"])
+    emb = case.get("embed") or list(range(case["n"]))
+    prog = sf.Program(case.get("N", case["n"]))
     occ = {}
-    with prog.context as q:
+    with prog.context as q_:
+        q = [q_[i] for i in emb]
         for c in case["cmds"]:
             if c["op"] == "MeasureHomodyne":
                 ops.MeasureHomodyne(c["p"][0]) | q[c["m"][0]]
@@ -184,7 +196,7 @@ def build(env, case, symbolic):
                         if s["kind"] == "meas" and s.get("het"):
                             args.append(complex(*s["het"]))
                         else:
-                            args.append(outcome(s["mode"], occ[s["mode"]]) if s["kind"] == "meas" else case["free"][s["name"]])
+                            args.append(outcome(emb[s["mode"]], occ[s["mode"]]) if s["kind"] == "meas" else case["free"][s["name"]])
                     if e["f"] in CFUNCS:
                         f = CFUNCS[e["f"]][0]
                     else:
@@ -302,7 +314,11 @@ def run_case(case, rep, env):
         case = dict(case, backend="gaussian")  # (the fock homodyne sampler is scripted differently; covered by C06)
     has_op = any(c.get("expr") and c["expr"]["f"] != "id" for c in case["cmds"])
     through = any(c.get("expr") and c["op"] in DECOMPOSED for c in case["cmds"]) or case["pipeline"] != "run"
-    rep.case([rnd(case["cmds"], 5), case["pipeline"], case["backend"], case["binding"]], has_op and through,
+    if case.get("embed"):
+        rep.observe("register:sparse-embedding")
+        if any(s_["kind"] == "meas" and case["embed"][s_["mode"]] >= 10 for c in case["cmds"] if c.get("expr") for s_ in c["expr"]["args"]):
+            rep.observe("measured-parameter-of-subsystem>=10")
+    rep.case([rnd(case["cmds"], 5), case["pipeline"], case["backend"], case["binding"], case.get("embed")], has_op and through,
              sample=case if rep.evaluations % 97 == 8 else None)
     rep.seen("expression-shapes", "|".join(sorted({c["expr"]["f"] + ":" + "+".join(a["kind"] for a in c["expr"]["args"])
                                                      for c in case["cmds"] if c.get("expr")})))
